@@ -477,7 +477,7 @@ func init() {
 				pos = ctx.Rng.Intn(len(c01Positions))
 			}
 			prog, posName := c01Program(e, d, pos, globals)
-			style := ref.PrintStyle{Tight: i%3 == 1, Wide: i%3 == 2}
+			style := ref.PrintStyle{Tight: i%3 == 1, Wide: i%3 == 2, TrailingComma: i%5 == 3}
 			files := bundleSources(prog.B, ref.Layout{Style: style})
 			ctx.Cell("pos:" + posName)
 			cd := dump(files, prog, d)
